@@ -644,6 +644,7 @@ func irun(args []string) error {
 	nms := fs.Int("msgs", 2, "exh: max messages per chunk")
 	ntm := fs.Int("times", 3, "exh: number of time values")
 	stride := fs.Int("stride", 1, "exh: take every stride-th file (offset seed%stride)")
+	nchans := fs.Int("chans", 2, "exh: number of channels messages are drawn from")
 	in := fs.String("in", "", "replay spec")
 	sessIn := fs.String("sessions", "", "Reader sessions exported by TLC from ReaderSession.tla (ndjson); a few are run on every file")
 	nsess := fs.Int("nsess", 4, "sessions per file")
@@ -761,7 +762,7 @@ func irun(args []string) error {
 			if len(cur) == *nms {
 				return
 			}
-			for ch := 0; ch < 2; ch++ {
+			for ch := 0; ch < *nchans; ch++ {
 				for t := 0; t < *ntm; t++ {
 					rec(append(cur, am{ch, t}))
 				}
